@@ -270,6 +270,9 @@ def _parse_bracket_selector(tokeniser: Tokeniser, reactor: 'Reactor', service: s
             # Unknown token - include it anyway
             current_def.append(tok)
 
+    if not descriptions:
+        # an empty list names nobody (match_neighbors reads "no description" as "all peers")
+        return
     yield from match_neighbors(reactor.peers(service), descriptions)
 
 
